@@ -308,7 +308,12 @@ psf_fseek (SF_PRIVATE *psf, sf_count_t offset, int whence)
 {	sf_count_t	absolute_position ;
 
 	if (psf->virtual_io)
-		return psf->vio.seek (offset, whence, psf->vio_user_data) ;
+	{	/* As for a descriptor : positions are relative to the start of the sound data (after an ID3v2 tag). */
+		if (whence == SEEK_SET)
+			offset += psf->fileoffset ;
+		absolute_position = psf->vio.seek (offset, whence, psf->vio_user_data) ;
+		return (absolute_position < 0) ? absolute_position : absolute_position - psf->fileoffset ;
+		} ;
 
 	/* When decoding from pipes sometimes see seeks to the pipeoffset, which appears to mean do nothing. */
 	if (psf->is_pipe)
@@ -432,7 +437,9 @@ psf_ftell (SF_PRIVATE *psf)
 {	sf_count_t pos ;
 
 	if (psf->virtual_io)
-		return psf->vio.tell (psf->vio_user_data) ;
+	{	pos = psf->vio.tell (psf->vio_user_data) ;
+		return (pos < 0) ? pos : pos - psf->fileoffset ;
+		} ;
 
 	if (psf->is_pipe)
 		return psf->pipeoffset ;
@@ -942,7 +949,12 @@ psf_fseek (SF_PRIVATE *psf, sf_count_t offset, int whence)
 	DWORD dwError ;
 
 	if (psf->virtual_io)
-		return psf->vio.seek (offset, whence, psf->vio_user_data) ;
+	{	/* As for a descriptor : positions are relative to the start of the sound data (after an ID3v2 tag). */
+		if (whence == SEEK_SET)
+			offset += psf->fileoffset ;
+		new_position = psf->vio.seek (offset, whence, psf->vio_user_data) ;
+		return (new_position < 0) ? new_position : new_position - psf->fileoffset ;
+		} ;
 
 	switch (whence)
 	{	case SEEK_SET :
@@ -1064,7 +1076,9 @@ psf_ftell (SF_PRIVATE *psf)
 	DWORD dwError ;
 
 	if (psf->virtual_io)
-		return psf->vio.tell (psf->vio_user_data) ;
+	{	pos = psf->vio.tell (psf->vio_user_data) ;
+		return (pos < 0) ? pos : pos - psf->fileoffset ;
+		} ;
 
 	if (psf->is_pipe)
 		return psf->pipeoffset ;
